@@ -88,6 +88,14 @@ class C04(Prop):
             # add standalone calls
             prog = [(t, hh, calls + ([G.op_match_doc("stand", hh, t, G.gen_text(r))] if r.chance(1, 3) else [])
                      + ([G.op_match_doc("standjson", hh, t, r.choice(G.JSON_DOCS))] if r.chance(1, 4) else [])) for t, hh, calls in prog]
+            if r.chance(1, 6):
+                # bulky entries: the file spans several 4096-byte scanner windows, entries straddle the window boundaries
+                def bulk(c):
+                    if c["api"] != "snap":
+                        return c
+                    txt = b"\n".join(bytes([97 + r.below(26)]) * r.range(20, 90) for _ in range(r.range(8, 60)))
+                    return dict(c, values=[hx(txt)])
+                prog = [(t, hh, [bulk(c) for c in calls]) for t, hh, calls in prog]
             prog2 = G.mutate_program(r, prog, frac=r.choice([(0, 1), (1, 4), (1, 2), (1, 1)]), collide=collide)
             # standalone values are not touched by mutate_program's generator for non-multi apis: mutate by hand
             prog2 = [(t, hh, [dict(c, doc=hx(G.gen_text(r))) if c["api"] == "stand" and r.chance(1, 2) else c for c in calls]) for t, hh, calls in prog2]
